@@ -65,3 +65,10 @@ def f18_minimal_imap(v, f):
 def f05_closure(v, f):
     """observed closure / verdict is exactly what the recorded contraction-rule defect predicts"""
     return bool((v.get("detail") or {}).get("f05_model_match"))
+
+
+@predicate
+def f34_fg_duplicate_factors(v, f):
+    """to_factor_graph on a Markov network holding two EQUAL factors: the target's check_model counts value-hashed factor nodes"""
+    g = (v.get("case") or {}).get("g") or {}
+    return g.get("layout") == "dup" and "Factors not associated with all the factor nodes" in str(v.get("observed"))
